@@ -8,6 +8,11 @@
 //! Oracle: by construction - the generator renders T from a model
 //! (`oracle::distinfo::render_canonical`) and assembles the same model
 //! through the API.
+//!
+//! Both directions include large documents (21-300 files); the API direction
+//! inserts in seven orders (patches before / between / after distfiles ...),
+//! optionally on top of a parsed text, with `set_rcsid` at any point and an
+//! extra write+parse observation midway.
 
 use crate::fw::{show, CaseResult, Cx, Ev};
 use crate::gen::distinfo as gd;
@@ -51,10 +56,28 @@ fn count_doc(ev: &mut Ev, m: &DocModel, what: &str) -> bool {
             }
         }
     }
+    let nfiles = m.dist.len() + m.patch.len();
+    ev.max("max/files-per-doc", nfiles as u64);
+    if nfiles > 20 {
+        ev.count("docs/large-21+files");
+        ev.count(&format!("docs/large-21+files/{what}"));
+    }
+    for list in [&m.dist, &m.patch] {
+        let names: Vec<&[u8]> = list.iter().map(|f| &f.name[..]).collect();
+        for c in gd::relation_classes(&names) {
+            ev.count(c);
+        }
+    }
     let mut high = false;
     for f in m.files() {
         for c in gd::danger_classes(&f.name) {
             ev.count(&format!("name-byte/{c}"));
+        }
+        for c in gd::clause_classes(&f.name) {
+            ev.count(&format!("clause/{c}"));
+        }
+        if f.name.len() >= 30 {
+            ev.count("name/long-30+bytes");
         }
         if f.name.contains(&b'/') {
             ev.count("name/dist-subdir");
@@ -132,30 +155,81 @@ fn to_entry(f: &FileModel) -> Entry {
     Entry::new(OsStr::from_bytes(&f.name), OsStr::from_bytes(&full), sums, f.size)
 }
 
-/// API -> write -> parse: same RCS Id, files, order, checksums, sizes.
-fn api_write_parse(ev: &mut Ev, m: &DocModel, order: &[FileModel]) -> CaseResult {
-    let high = count_doc(ev, m, "api-write-parse");
-    let mut di = Distinfo::new();
-    if let Some(r) = &m.rcsid {
-        di.set_rcsid(&OsString::from_vec(r.clone()));
+fn push_model(m: &mut DocModel, f: &FileModel) {
+    match f.kind {
+        Kind::Dist => m.dist.push(f.clone()),
+        Kind::Patch => m.patch.push(f.clone()),
     }
-    for f in order {
-        di.insert(to_entry(f));
-    }
-    // the assembled object itself
-    ev.evals(compare_structure(&di, m, true).map_err(|s| format!("assembled Distinfo: {s}"))?);
+}
+
+/// `as_bytes()` of the object, parsed again: RCS Id, files, order, checksums,
+/// sizes as in the model.
+fn write_parse(ev: &mut Ev, di: &Distinfo, m: &DocModel, when: &str) -> Result<Vec<u8>, String> {
     let text = di.as_bytes();
     let back = Distinfo::from_bytes(&text);
     ev.eval();
-    compare_rcsid(&back, &m.rcsid).map_err(|s| format!("{s}; written text {:?}", clip(&text)))?;
+    compare_rcsid(&back, &m.rcsid)
+        .map_err(|s| format!("{when}, after write+parse: {s}; written text {:?}", clip(&text)))?;
     ev.evals(
         compare_structure(&back, m, true)
-            .map_err(|s| format!("after write+parse: {s}; written text {:?}", clip(&text)))?,
+            .map_err(|s| format!("{when}, after write+parse: {s}; written text {:?}", clip(&text)))?,
     );
+    Ok(text)
+}
+
+/// API -> write -> parse: same RCS Id, files, order, checksums, sizes.
+fn api_write_parse(ev: &mut Ev, d: &gd::ApiDoc) -> CaseResult {
+    let m = &d.model;
+    let high = count_doc(ev, m, "api-write-parse");
+    ev.count(&format!("api-shape/{}", d.shape));
+    if d.order.len() > 20 {
+        ev.count(&format!("api-large-shape/{}", d.shape));
+    }
+    let mut cur = DocModel::default();
+    let mut di = match &d.base {
+        None => Distinfo::new(),
+        Some(b) => {
+            ev.count("api/parsed-base-then-insert");
+            cur = b.clone();
+            Distinfo::from_bytes(&render_canonical(b))
+        }
+    };
+    for i in 0..=d.order.len() {
+        if let Some((at, v)) = &d.set_rcsid {
+            if *at == i {
+                ev.count(if i == 0 { "api/set_rcsid-first" } else { "api/set_rcsid-later" });
+                di.set_rcsid(&OsString::from_vec(v.clone()));
+                cur.rcsid = Some(v.clone());
+            }
+        }
+        if d.probe_at == Some(i) && i < d.order.len() {
+            ev.count("api/observed-midway");
+            write_parse(ev, &di, &cur, &format!("before insertion {i}"))?;
+        }
+        if let Some(f) = d.order.get(i) {
+            di.insert(to_entry(f));
+            push_model(&mut cur, f);
+        }
+    }
+    // the assembled object itself
+    ev.evals(compare_structure(&di, m, true).map_err(|s| format!("assembled Distinfo: {s}"))?);
+    ev.eval();
+    compare_rcsid(&di, &m.rcsid).map_err(|s| format!("assembled Distinfo: {s}"))?;
+    let text = write_parse(ev, &di, m, "finished object")?;
     if high {
         ev.nontrivial(hash_strs(&[&text]));
     }
     Ok(())
+}
+
+fn show_file(f: &FileModel) -> String {
+    format!(
+        "{}:{:?} size={:?} sums={:?}",
+        f.kind.name(),
+        show(&f.name),
+        f.size,
+        f.sums.iter().map(|(a, h)| format!("{}={h}", a.keyword())).collect::<Vec<_>>()
+    )
 }
 
 pub fn run(cx: &mut Cx) {
@@ -179,11 +253,41 @@ pub fn run(cx: &mut Cx) {
         cx.ev.require(k);
     }
 
+    for k in [
+        "docs/large-21+files/parse-write",
+        "docs/large-21+files/api-write-parse",
+        "shared-tail/shorter-first",
+        "shared-tail/longer-first",
+        "related/one-name-prefix-of-other",
+        "related/letter-case-twins",
+        "related/lossy-utf8-twins",
+        "clause/emul-head+patch-local-inside",
+        "clause/emul-head+exception",
+        "clause/patch-local-head+exception",
+        "clause/other-head+clause-inside",
+        "clause/upper-case-head",
+        "name/long-30+bytes",
+        "api/parsed-base-then-insert",
+        "api/observed-midway",
+        "api/set_rcsid-later",
+    ] {
+        cx.ev.require(k);
+    }
+    for s in gd::API_SHAPES {
+        cx.ev.require(&format!("api-large-shape/{s}"));
+    }
+    // One document in `big_every` is large (21-300 files): deterministic, so
+    // every shard has some.  (Under Miri: one of 22 files per shard, in the
+    // parse-write direction only.)
+    let big_cap = cx.pick_tier(22usize, 300, 300, 300);
+    let big_every = cx.pick_tier(20u64, 40, 40, 40);
+
     // (a) canonical text -> from_bytes -> as_bytes
     let n = cx.per_shard(160, 20_000, 300_000, 3_000_000);
     let mut r = cx.stream("parse-write");
-    for _ in 0..n {
-        let m = gd::canonical_doc(&mut r);
+    for i in 0..n {
+        let big = if i % big_every == big_every - 1 { Some(big_cap) } else { None };
+        let m = gd::canonical_doc(&mut r, big);
         let text = render_canonical(&m);
         cx.check(
             || format!("canonical distinfo text {:?}", clip(&text)),
@@ -194,29 +298,32 @@ pub fn run(cx: &mut Cx) {
     // (b) assembled through the API -> as_bytes -> from_bytes
     let n = cx.per_shard(120, 12_000, 180_000, 1_800_000);
     let mut r = cx.stream("api-write-parse");
-    for _ in 0..n {
-        let (m, order) = gd::api_doc(&mut r);
+    for i in 0..n {
+        let big = if i % big_every == big_every - 1 { Some(big_cap) } else { None };
+        let d = gd::api_doc(&mut r, big);
         cx.check(
             || {
-                let ins: Vec<String> = order
-                    .iter()
-                    .map(|f| {
-                        format!(
-                            "{}:{:?} size={:?} sums={:?}",
-                            f.kind.name(),
-                            show(&f.name),
-                            f.size,
-                            f.sums.iter().map(|(a, h)| format!("{}={h}", a.keyword())).collect::<Vec<_>>()
-                        )
-                    })
-                    .collect();
+                let ins: Vec<String> = d.order.iter().map(show_file).collect();
+                let start = match &d.base {
+                    None => "Distinfo::new()".to_string(),
+                    Some(b) => format!("Distinfo::from_bytes({:?})", clip(&render_canonical(b))),
+                };
+                let mut all = ins.join("; ");
+                if all.len() > 6000 {
+                    let mut cut = 6000;
+                    while !all.is_char_boundary(cut) {
+                        cut -= 1;
+                    }
+                    all.truncate(cut);
+                    all.push_str(&format!("...[{} insertions]", d.order.len()));
+                }
                 format!(
-                    "Distinfo assembled with set_rcsid({:?}) and insert() of [{}]",
-                    m.rcsid.as_deref().map(show),
-                    ins.join("; ")
+                    "{start}, then insert() of [{all}], with set_rcsid {:?} (before insertion index, value), written and parsed also before insertion {:?}",
+                    d.set_rcsid.as_ref().map(|(at, v)| (*at, show(v))),
+                    d.probe_at
                 )
             },
-            |ev| api_write_parse(ev, &m, &order),
+            |ev| api_write_parse(ev, &d),
         );
     }
 }
